@@ -11,20 +11,20 @@ C = dict(
     ],
     plan_sources=[
         dict(name="cases", module="WriterReady", cfg="WriterReady_PlanCases.cfg", workers=4),
-        dict(name="hist", module="WriterReady", cfg="WriterReady_PlanHist.cfg", workers=8,
-             cap={"quick": 2500, "thorough": 100000}),
-        dict(name="hist2", module="WriterReady", cfg="WriterReady_PlanHist2.cfg", workers=8,
-             cap={"quick": 1500, "thorough": 100000}),
-        dict(name="sim", module="WriterReady", cfg="WriterReady_PlanSim.cfg", simulate={"quick": 400, "thorough": 6000},
-             depth=40, cap={"quick": 3000, "thorough": 60000}),
+        dict(name="histq", module="WriterReady", cfg="WriterReady_PlanHistQ.cfg", workers=8, tiers=["quick"]),
+        dict(name="hist2q", module="WriterReady", cfg="WriterReady_PlanHist2Q.cfg", workers=8, tiers=["quick"]),
+        dict(name="hist", module="WriterReady", cfg="WriterReady_PlanHist.cfg", workers=8, tiers=["thorough"]),
+        dict(name="hist2", module="WriterReady", cfg="WriterReady_PlanHist2.cfg", workers=8, tiers=["thorough"]),
+        dict(name="sim", module="WriterReady", cfg="WriterReady_PlanSim.cfg", simulate={"quick": 300, "thorough": 8000},
+             depth=40, cap={"quick": 600, "thorough": 60000}),
     ],
     directed="plans/C08.jsonl",
     trace=("WriterReady_Trace", "WriterReady_Trace.cfg"),
     death="violation",
     nontrivial=lambda t: any(e.get("calls") for e in t["events"]),
     rule="plans = (a) every order type of (t,c,d,cok,dok) x level x downstream existence x way of asking, "
-         "(b) complete histories of WriterReady.tla (exhaustive for two small configurations, sampled by VERIF_SEED in the quick tier; "
-         "TLC -simulate for the larger one); non-trivial = at least one downstream call was recorded; distinct = distinct event sequences",
+         "(b) complete histories of WriterReady.tla (two small configurations replayed exhaustively - shorter ones in the quick tier - "
+         "plus TLC -simulate for the large configuration, capped); non-trivial = at least one downstream call was recorded; distinct = distinct event sequences",
     assumptions=[
         "downstream = recording fake api.DataHandler (harness/wfake1) that models existence of databases/collections/partitions, "
         "remembers the source stamp of the create that made each object, fails before taking effect; drop of an absent object succeeds",
